@@ -160,6 +160,8 @@ def canon(s):
         a = s[1]
         if a[0] == "not":
             return a[1]
+        if a[0] == "op" and a[1] in ("&&", "||"):
+            return canon(["op", "||" if a[1] == "&&" else "&&", canon(["not", a[2]]), canon(["not", a[3]])])
         if a[0] == "bool":
             return ["bool", not a[1]]
         if a[0] == "op" and a[1] == "<":
@@ -755,6 +757,16 @@ class Builder:
                 return r[1]
             if len(st) == 1 and st[0][0] == "bytes" and st[0][2] == REMAINING and st[0][3] == "X":
                 return subst(r[1], V(st[0][1]), region)
+            if len(st) == 1 and st[0][0] == "bytes" and region[0] == "v":
+                # taking n bytes of a region that was itself taken with count n is taking the whole region
+                bld, cnt = self, None
+                while bld is not None and cnt is None:
+                    for s_ in bld.steps:
+                        if s_[0] == "bytes" and s_[1] == region[1]:
+                            cnt = s_[2]
+                    bld = bld.parent
+                if cnt is not None and cnt == st[0][2]:
+                    return subst(r[1], V(st[0][1]), region)
             if len(st) == 1 and st[0][0] == "ite" and r[1] == V(st[0][1]):
                 _, ib, c, sa, sb = st[0]
                 def arm(s):
@@ -825,6 +837,15 @@ class Builder:
         return self._ite_built(c, sa, sb, ca, cb)
 
     def _ite_built(self, c, sa, sb, ca, cb):
+        # a streaming take written by hand: `if i.len() < n { return Err(Incomplete(Needed::new(n - i.len()))) }` and then
+        # the first n bytes are split off: this is take(n) (the Needed value must be the missing byte count)
+        for (x, y, cy, cond_) in ((sa, sb, cb, c), (sb, sa, ca, canon(["not", c]))):
+            if not x["steps"] and x["ret"] and x["ret"][0] == "err" and x["ret"][2] == "Incomplete" and isinstance(x["ret"][1], str) and x["ret"][1].startswith("Incomplete:") \
+                    and cond_[0] == "op" and cond_[1] == "<" and cond_[2] == REMAINING and y["steps"] and y["steps"][0][0] == "bytes" and y["steps"][0][3] == "X" and y["steps"][0][2] == cond_[3] \
+                    and json.loads(x["ret"][1][len("Incomplete:"):]) == op("-", cond_[3], REMAINING):
+                first = y["steps"][0]
+                y2 = {"steps": [["bytes", first[1], first[2], "S"]] + y["steps"][1:], "ret": y["ret"]}
+                return self._splice(y2, cy)
         # a branch that only rejects is a guard
         if not sa["steps"] and sa["ret"] and sa["ret"][0] == "err" and sa["ret"][2] == "Error":
             self.guard(c, sa["ret"][1])
@@ -931,13 +952,43 @@ class Builder:
                 if c not in seen:
                     built.append(([c], mapped(s), None))
             d, dchild = mapped(inner[4]), None
-        # arms that all parse the same region (`k => p_k(region)`) are a dispatch inside that region
-        cand = [x[1] for x in built if not rejects(x[1])] + ([] if rejects(d) else [d])
+        # `match x { k.. => S_k, _ => if c(x) { A } else { B } }` where c is false for every listed k is
+        # `if c(x) { A } else { match x { k.. => S_k, _ => B } }` (a test done in the fallback arm or before the dispatch)
+        if built and len(d["steps"]) == 1 and d["steps"][0][0] == "ite" and d["ret"] == ["ok", V(d["steps"][0][1])] and scrut[0] == "v":
+            it = d["steps"][0]
+            fv_ = set()
+            def fvs(s_):
+                if isinstance(s_, list):
+                    if len(s_) == 2 and s_[0] == "v" and isinstance(s_[1], str):
+                        fv_.add(s_[1])
+                    else:
+                        for y_ in s_:
+                            fvs(y_)
+            fvs(it[2])
+            ok_ = fv_ == {scrut[1]}
+            if ok_:
+                from .grammar_check import ev_sym
+                try:
+                    ok_ = all(not ev_sym(it[2], {scrut[1]: c_}) for cs_, _, _ in built for c_ in cs_)
+                except Exception:
+                    ok_ = False
+            if ok_:
+                inner_sw = Builder(self.counter, self.cur)
+                inner_sw.parent = self
+                v_in = inner_sw._switch_built(scrut, built, it[4], None)
+                else_seq = {"steps": inner_sw.steps, "ret": ["ok", v_in]}
+                return self._ite_built(it[2], it[3], else_seq, Builder(self.counter, self.cur), inner_sw)
+        # arms that all parse the same region (`k => p_k(region)`) are a dispatch inside that region; an arm that reads
+        # nothing is the same inside or outside the region
+        def pure_(s):
+            return not s["steps"] and s["ret"] and s["ret"][0] == "ok"
+        allc = [x[1] for x in built if not rejects(x[1])] + ([] if rejects(d) else [d])
+        cand = [s for s in allc if not pure_(s)]
         if len(cand) >= 2 and all(len(s["steps"]) == 1 and s["steps"][0][0] == "sub" and s["ret"] == ["ok", V(s["steps"][0][1])] for s in cand) \
                 and all(s["steps"][0][2] == cand[0]["steps"][0][2] for s in cand) and not occurs(scrut, V(cand[0]["steps"][0][1])):
             region = cand[0]["steps"][0][2]
             def inner(s):
-                return s if rejects(s) else s["steps"][0][3]
+                return s if (rejects(s) or pure_(s)) else s["steps"][0][3]
             sb_ = self.counter.fresh()
             ib_ = self.counter.fresh()
             flat_ = sorted([[c, inner(s)] for cs, s, _ in built for c in cs], key=lambda x_: x_[0])
@@ -949,6 +1000,11 @@ class Builder:
             nested = {"steps": [["switch", ib_, scrut, flat_, inner(d)]], "ret": ["ok", V(ib_)]}
             self.steps.append(["sub", sb_, region, nested])
             return V(sb_)
+        if len(built) == 1 and built[0][0] == [0] and not built[0][1]["steps"] and built[0][1]["ret"] == ["ok", NONE] and len(d["steps"]) == 1 and d["steps"][0][0] == "bytes" \
+                and d["steps"][0][2] == scrut and d["ret"] == ["ok", some(V(d["steps"][0][1]))]:
+            self.steps.append(d["steps"][0])
+            self._adv()
+            return ["nonempty", V(d["steps"][0][1])]
         live = [x for x in built if not rejects(x[1])]
         # `match x { c => body, _ => Err }` is a guard (reject unless x == c) followed by body;
         # `match x { c => Err, _ => body }` is a guard (reject if x == c) followed by body
@@ -1431,6 +1487,12 @@ class Ev:
             if inner is not None:
                 # `expr?` in result position: expr is Result<(rem,val)>; the ? yields the tuple - not a Result
                 raise Opaque("? in result position")
+            moc = self.manual_opt_complete(e, env, gen, b)
+            if moc is not None:
+                return moc
+            mu8 = self.manual_u8(e, env, gen, b)
+            if mu8 is not None:
+                return mu8
             if self.is_manual_alt(e):
                 # nom's alt((p, q)) written out: on a recoverable error of p, q runs on the same input
                 return b.alt([lambda nb: self.eval_result_block(e["scrut"], env, gen, nb), lambda nb: self.eval_result_block(e["arms"][0]["body"], env, gen, nb)])
@@ -1445,6 +1507,11 @@ class Ev:
                 return self.eval_ok_tuple(e["args"][0], env, gen, b)
             if fp == "core::result::Result::Err":
                 kind, sev = self.err_kind(e["args"][0])
+                if sev == "Incomplete":
+                    # keep what is asked for: Needed::new(X) / Needed::Unknown
+                    inc = strip(strip(e["args"][0])["args"][0]) if strip(e["args"][0]).get("args") else None
+                    if inc is not None and inc["k"] == "call" and path_of(inc["f"]) == "nom::internal::Needed::new" and len(inc["args"]) == 1:
+                        kind = "Incomplete:" + json.dumps(self.sym(inc["args"][0], env, gen))
                 b.fail(kind, sev)
             tok_ = self.input_of(e, env, gen)
             if tok_ is not None and tok_[0] in ("tok", "v") and not b.is_cur(tok_):
@@ -1480,6 +1547,113 @@ class Ev:
                 return self.eval_choice(e, env, gen, b, lambda x, env2, nb: self.eval_result_block(x, env2, gen, nb), None)
             raise Opaque("method call in result position: " + nm)
         raise Opaque("result expression kind " + k)
+
+    def manual_u8(self, e, env, gen, b):
+        """match i.split_first() { Some((&x, rest)) => Ok((rest, F(x))), None => Err(Incomplete(Needed::new(1))) }: be_u8 by hand"""
+        sc = strip(e["scrut"])
+        if not (sc["k"] == "mcall" and (sc.get("path") or "").endswith("::split_first") and len(e["arms"]) == 2):
+            return None
+        if not b.is_cur(self.sym(sc["recv"], env, gen)):
+            return None
+        some_a = none_a = None
+        for a in e["arms"]:
+            p = a["pat"]
+            if p["k"] == "ptuplestruct" and p["res"].get("path") == "core::option::Option::Some" and len(p["pats"]) == 1 and p["pats"][0]["k"] == "ptuple" and len(p["pats"][0]["pats"]) == 2:
+                some_a = a
+            elif (p["k"] == "pexpr" and p["e"].get("path") == "core::option::Option::None") or p["k"] == "wild":
+                none_a = a
+        if some_a is None or none_a is None or some_a.get("guard") or none_a.get("guard"):
+            return None
+        nb_ = strip(none_a["body"])
+        if not (nb_["k"] == "call" and path_of(nb_["f"]) == "core::result::Result::Err" and self.err_kind(nb_["args"][0])[1] == "Incomplete"):
+            return None
+        inc = strip(strip(nb_["args"][0])["args"][0])
+        if not (inc["k"] == "call" and path_of(inc["f"]) == "nom::internal::Needed::new" and self.sym(inc["args"][0], env, gen) == N(1)):
+            return None
+        xp, rp_ = some_a["pat"]["pats"][0]["pats"]
+        v = b.u(8, "be", "S")
+        env2 = dict(env)
+        self.bind_pat(xp, v, env2)
+        self.bind_pat(rp_, b.tok(), env2)
+        return self.eval_result_block(some_a["body"], env2, gen, b)
+
+    def manual_opt_complete(self, e, env, gen, b):
+        """match p(i) { Ok((r, v)) => Ok((r, F(v))), Err(Failure(e)) => Err(Failure(e)), Err(Incomplete|Error) => Ok((i, G)) }
+        with F(v), G = f(Some(v)), f(None): nom's opt(complete(p)) written out, value f(the Option)"""
+        arms = e["arms"]
+        def sub_matches(p, oc):
+            k = p["k"]
+            if k in ("wild", "bind"):
+                return True
+            if k == "por":
+                return any(sub_matches(x, oc) for x in p["pats"])
+            if k == "ptuplestruct" and p["res"].get("path", "").startswith("nom::internal::Err::"):
+                return p["res"]["path"].split("::")[-1] == oc
+            return False
+        def matches(p, oc):
+            k = p["k"]
+            if k in ("wild", "bind"):
+                return True
+            if k == "por":
+                return any(matches(x, oc) for x in p["pats"])
+            if k == "ptuplestruct" and p["res"].get("path") == "core::result::Result::Ok":
+                return oc == "Ok"
+            if k == "ptuplestruct" and p["res"].get("path") == "core::result::Result::Err":
+                return oc != "Ok" and (not p["pats"] or sub_matches(p["pats"][0], oc))
+            return False
+        def arm_for(oc):
+            for a in arms:
+                if a.get("guard") is None and matches(a["pat"], oc):
+                    return a
+            return None
+        if any(a.get("guard") for a in arms) or not IRESULT_TY.match(strip(e["scrut"]).get("ty", "")):
+            return None
+        ok_a, inc_a, err_a, fail_a = arm_for("Ok"), arm_for("Incomplete"), arm_for("Error"), arm_for("Failure")
+        if None in (ok_a, inc_a, err_a, fail_a) or inc_a is not err_a or ok_a is err_a or fail_a is err_a or fail_a is ok_a:
+            return None
+        p = ok_a["pat"]
+        if not (p["k"] == "ptuplestruct" and len(p["pats"]) == 1 and p["pats"][0]["k"] == "ptuple" and len(p["pats"][0]["pats"]) == 2 and all(x["k"] == "bind" for x in p["pats"][0]["pats"])):
+            return None
+        rid, vid = p["pats"][0]["pats"][0]["id"], p["pats"][0]["pats"][1]["id"]
+        ob = strip(ok_a["body"])
+        fb = strip(err_a["body"])
+        def ok_tuple(x):
+            if x["k"] == "call" and path_of(x["f"]) == "core::result::Result::Ok" and strip(x["args"][0])["k"] == "tup" and len(strip(x["args"][0])["xs"]) == 2:
+                return strip(x["args"][0])["xs"]
+            return None
+        ot, ft = ok_tuple(ob), ok_tuple(fb)
+        if ot is None or ft is None:
+            return None
+        if not (strip(ot[0])["k"] == "local" and strip(ot[0])["id"] == rid):
+            return None
+        if not b.is_cur(self.sym(ft[0], env, gen)):
+            return None
+        # the Failure arm must hand the failure on
+        fl = strip(fail_a["body"])
+        fp_ = fail_a["pat"]
+        passes = False
+        if fp_["k"] == "bind" and fl["k"] == "local" and fl["id"] == fp_["id"]:
+            passes = True
+        elif fl["k"] == "call" and path_of(fl["f"]) == "core::result::Result::Err":
+            inner = strip(fl["args"][0])
+            if inner["k"] == "local":
+                passes = True   # Err(e) => Err(e)
+            elif inner["k"] == "call" and path_of(inner["f"]) == "nom::internal::Err::Failure" and strip(inner["args"][0])["k"] == "local":
+                passes = True   # Err(Failure(e)) => Err(Failure(e))
+        if not passes:
+            return None
+        env2 = dict(env)
+        env2[vid] = ["lp", 0]
+        F_ = self.sym(ot[1], env2, gen)
+        G_ = self.sym(ft[1], env, gen)
+        holes = []
+        gen_ = antiunify(F_, G_, holes)
+        if F_ == some(["lp", 0]) and G_ == NONE:
+            gen_, holes = ["hole", 0], [(F_, G_)]
+        if len(holes) != 1 or holes[0] != (some(["lp", 0]), NONE) or occurs(subst(gen_, ["hole", 0], ["x"]), ["lp", 0]):
+            return None
+        ov = b.opt(lambda nb: nb.complete(lambda nb2: self.eval_result_block(e["scrut"], env, gen, nb2)))
+        return subst(gen_, ["hole", 0], ov)
 
     def is_manual_alt(self, e):
         arms = e["arms"]
@@ -1554,6 +1728,9 @@ class Ev:
         rem = self.sym(t["xs"][0], env, gen)
         val = self.sym(t["xs"][1], env, gen)
         if b.is_cur(rem):
+            if isinstance(val, list) and val and val[0] == "ifv":
+                # Ok((i, if c { A } else { B })): the choice is a (pure) branch of the grammar
+                return b.ite(val[1], lambda nb: val[2], lambda nb: val[3])
             return val
         # remainder written by hand
         if rem == ["bytes_lit", []]:
@@ -1577,6 +1754,13 @@ class Ev:
         self.anomalies.append(("REMAINDER", "returned remainder is not the current input position: %s" % brief(rem), ""))
         b.steps.append(["opaque", b.counter.fresh(), "remainder " + brief(rem)])
         return val
+
+    def err_kind_of(self, e, env):
+        """err_kind, looking through a local bound by `let e = Err::Error(..);`"""
+        e2 = strip(e)
+        if e2["k"] == "local" and e2["id"] in env.get("__hir__", {}):
+            return self.err_kind(env["__hir__"][e2["id"]])
+        return self.err_kind(e2)
 
     def err_kind(self, e):
         """Err::Error(make_error(i, ErrorKind::X)) / Err::Error(Error::new(i, X)) / Err::Failure(..)"""
@@ -1647,9 +1831,17 @@ class Ev:
                 r_ = self.cps_selector(b, v, pat, env, gen, rest, tail)
                 if r_ is not None:
                     return r_
+            elif ie["k"] == "call" and pat["k"] == "bind" and PARSERISH_TY.search(ie.get("ty", "")) and not IRESULT_TY.match(ie.get("ty", "")):
+                # let p = tuple((a, b, c));  -- a parser built by a combinator, applied later
+                env_snap = dict(env)
+                v = ParserFn(lambda nb, ie=ie, env_snap=env_snap: self.parser_of(ie, env_snap, gen).apply(nb), "let-bound parser")
             else:
                 # pure let
                 v = self.sym_or_closure(ie, env, gen)
+                if pat["k"] == "bind":
+                    hmap = dict(env.get("__hir__", {}))
+                    hmap[pat["id"]] = ie
+                    env["__hir__"] = hmap
             self.bind_pat(pat, v, env)
             return None
         if k in ("semi", "sexpr"):
@@ -1666,7 +1858,22 @@ class Ev:
                     v = b.ite(c, lambda nb: self.eval_result_block(rexpr, env, gen, nb),
                               lambda nb: self.eval_result_block_noskip(rest_block, env, gen, nb))
                     return (v,)
+                if self.diverges(tb):
+                    # if c { ..statements..; return R; }  REST
+                    rest_block = {"k": "block", "stmts": rest, "expr": tail}
+                    v = b.ite(c, lambda nb: self.eval_result_block(tb, env, gen, nb),
+                              lambda nb: self.eval_result_block_noskip(rest_block, env, gen, nb))
+                    return (v,)
                 raise Opaque("statement-level if without return")
+            if e["k"] == "assign":
+                lhs = strip(e["a"])
+                if lhs["k"] == "field" and strip(lhs["x"]).get("k") == "local" and isinstance(env.get(strip(lhs["x"])["id"]), list) and env[strip(lhs["x"])["id"]][0] == "struct":
+                    sid = strip(lhs["x"])["id"]
+                    sv = env[sid]
+                    nv = self.eval_value_expr(e["b"], env, gen, b) if has_effects(e["b"]) else self.sym(e["b"], env, gen)
+                    env[sid] = ["struct", sv[1], sorted([[k_, v_] for k_, v_ in sv[2] if k_ != lhs["name"]] + [[lhs["name"], nv]])]
+                    return None
+                raise Opaque("statement assign")
             if e["k"] == "mcall" and strip(e["recv"]).get("k") == "local" and strip(e["recv"])["id"] in env and not has_effects(e):
                 # growth of a local Vec that is being assembled: records.push(x) / records.extend(xs)
                 rid = strip(e["recv"])["id"]
@@ -1694,8 +1901,13 @@ class Ev:
         raise Opaque("statement kind " + k)
 
     def option_split(self, sc):
-        """for a value of type Option<T> produced by a checked operation: (condition under which it is None, the value
-        it holds otherwise)"""
+        """for a value of type Option<T> built from known pieces: (condition under which it is None, the value it holds
+        otherwise); None if the analysis cannot tell"""
+        OPT = "core::option::Option::<T>::"
+        if sc == NONE:
+            return ["bool", True], None
+        if sc[0] == "ctor" and sc[1] == "core::option::Option::Some" and len(sc[2]) == 1:
+            return ["bool", False], sc[2][0]
         if sc[0] == "mcall" and re.fullmatch(r"core::num::<impl (u8|u16|u32|u64|usize)>::checked_sub", sc[1]) and len(sc[2]) == 2:
             a, c = sc[2]
             return lt(a, c), op("-", a, c)
@@ -1706,6 +1918,22 @@ class Ev:
                     return None
                 v = v[2]
             return negate(c), v
+        if sc[0] == "mcall" and sc[1] == OPT + "filter" and len(sc[2]) == 2 and sc[2][1][0] == "lam" and sc[2][1][1] == 1:
+            inner = self.option_split(sc[2][0])
+            if inner is None or inner[1] is None:
+                return None
+            keep = recanon(subst(sc[2][1][2], ["lp", 0], inner[1]))
+            return lor(inner[0], negate(keep)), inner[1]
+        if sc[0] == "mcall" and sc[1] == OPT + "map" and len(sc[2]) == 2:
+            inner = self.option_split(sc[2][0])
+            f = sc[2][1]
+            if inner is None or inner[1] is None:
+                return None
+            if f[0] == "lam" and f[1] == 1:
+                return inner[0], recanon(subst(f[2], ["lp", 0], inner[1]))
+            if f[0] == "unit" and re.fullmatch(r"core::convert::num::<impl core::convert::From<u(8|16|32)> for (u16|u32|u64|u128|usize)>::from", f[1]):
+                return inner
+            return None
         if sc[0] == "ifv" and sc[3] == NONE and sc[2][0] == "ctor" and sc[2][1] == "core::option::Option::Some":
             return negate(sc[1]), sc[2][2][0]
         if sc[0] == "ifv" and sc[2] == NONE and sc[3][0] == "ctor" and sc[3][1] == "core::option::Option::Some":
@@ -1763,7 +1991,7 @@ class Ev:
                 sp = self.option_split(sc_)
                 a0 = strip_ref(inner["args"][0])
                 errx = a0["body"] if a0["k"] == "closure" else a0
-                kind, sev = self.err_kind(errx)
+                kind, sev = self.err_kind_of(errx, env)
                 if sp is None and sc_[0] == "matchv" and all(v_ == NONE or (v_[0] == "ctor" and v_[1] == "core::option::Option::Some") for _, v_ in sc_[2]):
                     # a table lookup `match x { k => Some(v), _ => None }`: a dispatch whose None arms reject
                     arms_, dflt_ = [], None
@@ -1780,6 +2008,8 @@ class Ev:
                 if sp is None:
                     raise Opaque("ok_or on an Option the analysis cannot split")
                 none_c, val = sp
+                if val is None:
+                    b.fail(kind, sev)
                 if sev == "Error":
                     b.guard(none_c, kind)
                 else:
@@ -1829,7 +2059,7 @@ class Ev:
                     a0 = strip_ref(inner["args"][0])
                     errx, eenv = (a0["body"], env) if a0["k"] == "closure" else (a0, env)
                     def handler(nb, errx=errx, eenv=eenv):
-                        kind, sev = self.err_kind(errx)
+                        kind, sev = self.err_kind_of(errx, eenv)
                         nb.fail(kind, sev)
                     return self.eval_choice(inner["recv"], env, gen, b, leaf, handler, depth + 1)
                 raise Opaque("? inside a choice of parsers")
@@ -2388,6 +2618,12 @@ class Ev:
             if p == "nom::combinator::rest":
                 return ParserFn(lambda b: b.whole(), p)
             is_local = e.get("resolved_local") if e.get("resolved") else e.get("local")
+            if p in ("nom_derive::traits::Parse::parse_be", "nom_derive::traits::Parse::parse_le") and not is_local and e.get("args"):
+                # the trait's default method of a hand-written impl: it calls Self::parse
+                slf = e["args"][0].split("<")[0]
+                for ff in self.facts.hir_fns():
+                    if ff.get("impl_trait_path") == "nom_derive::traits::Parse" and ff.get("name") == "parse" and (ff.get("impl_self") or "").split("<")[0] == slf:
+                        return ParserFn(lambda b, ff=ff: self.call_parser_fn(ff, [], None, None, b), ff["path"])
             if is_local and e.get("dk") in ("Fn", "AssocFn"):
                 callee = self.facts.fn(p)
                 if callee is None:
@@ -2434,6 +2670,21 @@ class Ev:
                 if bs is None:
                     raise Opaque("tag with non-literal")
                 return ParserFn(lambda b: b.tag(bs, mode), fp)
+            if fp == "nom::combinator::flat_map":
+                p1 = self.parser_of(a[0], env, gen)
+                f2 = strip_ref(a[1])
+                tgt2 = (f2.get("resolved") or f2.get("path") or "") if f2["k"] == "path" else ""
+                if tgt2 in ("nom::bytes::streaming::take", "nom::bytes::complete::take"):
+                    md = "S" if "streaming" in tgt2 else "C"
+                    return ParserFn(lambda b: b.bytes(p1.apply(b), md), fp)
+                if f2["k"] == "closure" and len(f2["params"]) == 1:
+                    def fm(b):
+                        v = p1.apply(b)
+                        env2 = dict(env)
+                        self.bind_pat(f2["params"][0], v, env2)
+                        return self.parser_of(f2["body"], env2, gen).apply(b)
+                    return ParserFn(fm, fp)
+                raise Opaque("flat_map with a function the analysis cannot read")
             if fp == "nom::multi::length_data":
                 lp = self.parser_of(a[0], env, gen)
 
@@ -2683,7 +2934,11 @@ class Ev:
             res = e["res"]
             fields = sorted([f["name"], self.sym(f["e"], env, gen)] for f in e["fields"])
             if e.get("base") is not None:
-                return ["struct_upd", res["path"], fields, self.sym(e["base"], env, gen)]
+                base_ = self.sym(e["base"], env, gen)
+                if base_[0] == "struct" and base_[1] == res["path"]:
+                    given = set(k_ for k_, _ in fields)
+                    return ["struct", res["path"], sorted(fields + [[k_, v_] for k_, v_ in base_[2] if k_ not in given])]
+                return ["struct_upd", res["path"], fields, base_]
             return ["struct", res["path"], fields]
         if k == "index":
             x = self.sym(e["x"], env, gen)
@@ -2896,6 +3151,7 @@ class Ev:
 
 
 IRESULT_TY = re.compile(r"^(core::option::Option<)?core::result::Result<\(&")
+PARSERISH_TY = re.compile(r"impl (for<[^>]*> ?)?Fn|\{closure")
 FNPTR_TY = re.compile(r"^(for<[^>]*> ?)?(unsafe )?fn\(")
 OPT_OR_FN_TY = re.compile(r"^(core::option::Option<|(for<[^>]*> ?)?fn\()")
 
